@@ -21,9 +21,16 @@ A_ag   == <<"agenda-group", "\"grp one\"", "ag", "grp one">>
 A_grp  == <<"activation-group", "\"act\"", "grp", "act">>
 A_eff  == <<"date-effective", "\"2025-12-01\"", "eff", "2025-12-01">>
 A_exp  == <<"date-expires", "\"2026-01-31\"", "exp", "2026-01-31">>
+(* group names that contain attribute keywords / the word rule; a description (a bare string after the name: value token <SKIP>) *)
+A_ag2  == <<"agenda-group", "\"no-loop batch\"", "ag", "no-loop batch">>
+A_ag3  == <<"agenda-group", "\"lock-on-active zone\"", "ag", "lock-on-active zone">>
+A_grp2 == <<"activation-group", "\"pricing rules\"", "grp", "pricing rules">>
+A_desc == <<"\"checks the no-loop rule of salience 7\"", "<SKIP>", "desc", "">>
 AttrLists == << <<>>, <<A_sal>>, <<A_nl>>, <<A_sal, A_nl>>, <<A_nl, A_sal>>, <<A_ag, A_sal>>, <<A_grp, A_lock, A_sal>>,
                 <<A_eff, A_exp, A_sal>>, <<A_sal, A_nl, A_lock, A_ag, A_grp, A_eff, A_exp>>,
-                <<A_exp, A_eff, A_grp, A_ag, A_lock, A_nl, A_sal>>, <<A_lock>>, <<A_ag, A_grp>> >>
+                <<A_exp, A_eff, A_grp, A_ag, A_lock, A_nl, A_sal>>, <<A_lock>>, <<A_ag, A_grp>>,
+                <<A_desc, A_sal>>, <<A_ag2, A_sal>>, <<A_nl, A_grp2, A_sal>>, <<A_ag3>>, <<A_lock, A_grp2, A_ag2, A_sal>>, <<A_desc, A_ag2, A_grp2>>,
+                <<A_desc>> >>
 
 (* values: <<token, AST kind, AST text>> *)
 V_int  == <<"5", "int", "5">>
@@ -36,6 +43,9 @@ V_semi == <<"\"p;q\"", "str", "p;q">>
 V_brace== <<"\"}\"", "str", "}">>
 V_then == <<"\"go then stop\"", "str", "go then stop">>
 V_uni  == <<"\"<U1>\"", "str", "<U1>">>
+V_tab  == <<"\"id<TAB>name\"", "str", "id<TAB>name">>          \* a raw TAB inside the literal
+V_sp2  == <<"\"two  spaces\"", "str", "two  spaces">>
+V_url  == <<"\"http://x.y/z\"", "str", "http://x.y/z">>        \* a comment marker inside the literal
 V_true == <<"true", "bool", "true">>
 V_null == <<"null", "null", "">>
 V_ref  == <<"B.other", "expr", "B.other">>
@@ -53,10 +63,13 @@ a10 == Atom("A.s", "==", V_or)
 a11 == Atom("A.s", "==", V_brace)
 a12 == Atom("A.s", "==", V_then)
 a13 == Atom("A.n", "==", V_null)
+a14 == Atom("A.s", "==", V_tab)
+a15 == Atom("A.s", "!=", V_sp2)
+a16 == Atom("A.u", "==", V_url)
 Not(c) == [k |-> "not", c |-> c]
 And(cs) == [k |-> "and", cs |-> cs]
 Or(cs)  == [k |-> "or", cs |-> cs]
-Conds == << a1, a2, a3, a4, a5, a6, a7, a8, a9, a10, a11, a12, a13,
+Conds == << a1, a2, a3, a4, a5, a6, a7, a8, a9, a10, a11, a12, a13, a14, a15, a16, And(<<a14, a1>>), Or(<<a16, a15>>),
             Not(a1), And(<<a1, a2>>), Or(<<a1, a2>>), And(<<a1, a2, a3>>), Or(<<a3, a4, a5>>),
             Or(<<And(<<a1, a2>>), a3>>), Or(<<a1, And(<<a2, a3>>)>>), And(<<Or(<<a1, a2>>), a3>>), And(<<a1, Or(<<a2, a3>>)>>),
             Not(And(<<a1, a2>>)), And(<<Not(a1), a2>>), Or(<<Not(a3), And(<<a4, a5>>)>>),
@@ -70,6 +83,8 @@ Conds == << a1, a2, a3, a4, a5, a6, a7, a8, a9, a10, a11, a12, a13,
 Set(f, v) == [toks |-> <<f, "=", v[1]>>, ast |-> <<"set", f, <<v[2], v[3]>> >>]
 Acts == << Set("A.out", V_int), Set("A.msg", V_str), Set("A.msg", V_semi), Set("A.msg", V_and), Set("A.ok", V_true), Set("A.n", V_null),
            Set("A.msg", V_brace), Set("A.msg", V_uni), Set("A.out", V_neg), Set("A.out", V_num),
+           Set("A.msg", V_tab), Set("A.msg", V_sp2), Set("A.url", V_url),
+           [toks |-> <<"Log", "(", "\"tab<TAB>bed  twice\"", ")">>, ast |-> <<"log", "tab<TAB>bed  twice">>],
            [toks |-> <<"A.out", "=", "A.x", "+", "1">>, ast |-> <<"set", "A.out", <<"expr", "A.x + 1">> >>],
            [toks |-> <<"A.out", "=", "B.other">>, ast |-> <<"set", "A.out", <<"expr", "B.other">> >>],
            [toks |-> <<"A.cnt", "+=", "2">>, ast |-> <<"append", "A.cnt", <<"int", "2">> >>],
@@ -78,7 +93,7 @@ Acts == << Set("A.out", V_int), Set("A.msg", V_str), Set("A.msg", V_semi), Set("
            [toks |-> <<"ScheduleRule", "(", "500", ",", "\"Other\"", ")">>, ast |-> <<"schedule", "Other", "500">>],
            [toks |-> <<"notify", "(", "\"a\"", ",", "1", ")">>, ast |-> <<"custom", "notify", << <<"0", <<"str", "a">> >>, <<"1", <<"int", "1">> >> >> >>] >>
 ActLists == << <<1>>, <<2>>, <<3>>, <<4>>, <<5>>, <<6>>, <<7>>, <<8>>, <<9>>, <<10>>, <<11>>, <<12>>, <<13>>, <<14>>, <<15>>, <<16>>, <<17>>,
-               <<1, 2>>, <<3, 1>>, <<1, 14, 15>>, <<11, 13, 5>> >>
+               <<18>>, <<19>>, <<20>>, <<21>>, <<1, 2>>, <<3, 1>>, <<1, 14, 15>>, <<11, 13, 5>>, <<12, 18, 21>> >>
 
 (* ---- rendering ---- *)
 NeedsParen(parent, c) == (parent = "and" /\ c.k \in {"or", "and"}) \/ (parent = "or" /\ c.k = "or")
